@@ -68,6 +68,7 @@ type Behav struct {
 	ChunkDelay int      `json:"chunk_delay,omitempty"` // microseconds between chunks
 	Cap        int      `json:"cap,omitempty"`         // -1 = array-backed stream, otherwise Pipe capacity
 	Bare       bool     `json:"bare,omitempty"`        // output = join(chunks), no "<tag><name>:" prefix (the tool can answer "")
+	Depth      int      `json:"depth,omitempty"`       // a panicking tool panics this many frames below its entry point
 }
 
 type Call struct {
@@ -228,6 +229,17 @@ func (b Behav) outChunks(tag, name string) []string {
 	return prefixFirst(tag+name, b.Chunks)
 }
 
+// panic with v from depth frames further down (the deeper the stack, the longer whoever recovers
+// the panic takes to record it)
+//
+//go:noinline
+func panicAt(depth int, v any) int {
+	if depth <= 0 {
+		panic(v)
+	}
+	return panicAt(depth-1, v) + 1
+}
+
 func (rc *recorder) invoke(ctx context.Context, name string, k int, tag string) (string, error) {
 	rc = rc.pick(ctx)
 	x := rc.begin(ctx, name, argsOf(k), tag)
@@ -238,7 +250,7 @@ func (rc *recorder) invoke(ctx context.Context, name string, k int, tag string) 
 	}
 	sleepUS(b.Delay)
 	if b.Panic {
-		panic(toolPanic{k})
+		panicAt(b.Depth, toolPanic{k})
 	}
 	if b.Fail != 0 {
 		return "", &toolErr{b.Fail}
@@ -264,7 +276,7 @@ func (rc *recorder) stream(ctx context.Context, name string, k int, tag string) 
 	}
 	sleepUS(b.Delay)
 	if b.Panic {
-		panic(toolPanic{k})
+		panicAt(b.Depth, toolPanic{k})
 	}
 	if b.Fail != 0 && b.FailAt < 0 {
 		return nil, &toolErr{b.Fail}
@@ -1407,6 +1419,7 @@ func genCase(r *lib.Rng, tier string) *Case {
 				}
 			case r.Chance(1, 10):
 				b.Panic = true
+				b.Depth = []int{0, 0, 40, 300}[r.Intn(4)]
 			}
 		}
 		c.Behavs = append(c.Behavs, b)
@@ -1476,16 +1489,100 @@ func (engine) Decode(raw json.RawMessage) (any, error) {
 var runPlan = [][2]string{{"invoke", "standalone"}, {"stream", "standalone"}, {"invoke", "graph"}, {"stream", "graph"}, {"concat", "graph"},
 	{"invoke", "shared"}, {"stream", "shared"}}
 
-func (engine) Run(ci any) lib.Result {
+// failures observed in an earlier execution of the same case: a schedule-dependent failure (a
+// result published after the waiter was released, ...) need not show in every execution, and
+// lib.Main executes a failing case again after shrinking
+var sticky = map[string]lib.Result{}
+
+func (e engine) Run(ci any) lib.Result {
 	c := ci.(*Case)
-	defer markRunning(c)()
+	key := js(c)
+	res := e.runCase(c)
+	if res.Oracle != "" {
+		sticky[key] = res
+		return res
+	}
+	if prev, ok := sticky[key]; ok {
+		return prev
+	}
+	return res
+}
+
+// a call that runs on a goroutine of the node (index >= 1) and panics, in a message the node accepts
+func (c *Case) goroutinePanic() bool {
+	if s := c.spec(false); s.pre {
+		return false
+	}
+	for i, cl := range c.Calls {
+		if i >= 1 && cl.K >= 0 && c.kindOf(cl.Name) != "" && c.Behavs[cl.K].Panic {
+			return true
+		}
+	}
+	return false
+}
+
+const panicProbes = 12
+
+// the same case under another schedule: the panicking executions finish last (the caller is
+// already waiting for the goroutines when they panic), everything else answers at once
+func (c *Case) panicLast() *Case {
+	p := *c
+	p.Behavs = append([]Behav{}, c.Behavs...)
+	for i := range p.Behavs {
+		b := &p.Behavs[i]
+		b.ChunkDelay = 0
+		if b.Panic {
+			b.Delay = 600 + b.Delay%400
+		} else if b.Delay > 60 {
+			b.Delay = 60
+		}
+	}
+	return &p
+}
+
+func (engine) runCase(c *Case) lib.Result {
+	at, done := markRunning(c)
+	defer done()
 	res := lib.Result{}
 	var obs []RunObs
 	var terms []string
 	sendable := true
 	cur = &interner{names: map[string]string{}}
 	defer func() { cur = nil }()
+	// whether the panic error of a goroutine task is in its slot when the scan reads it depends on the
+	// schedule: before anything is streamed (a lost panic shows as an answer in the value-returning
+	// call, while the streamed form would dereference the missing stream) the value-returning call is
+	// repeated, half of the time under the schedule in which the panicking executions finish last;
+	// likewise for the peer call of the shared-node runs
+	for _, pc := range []*Case{c, c.peerCase()} {
+		if res.Oracle != "" || !pc.goroutinePanic() {
+			continue
+		}
+		late := pc.panicLast()
+		for i := 0; i < panicProbes && res.Oracle == ""; i++ {
+			host := []string{"standalone", "graph"}[i%2]
+			at("invoke(repeated)/" + host)
+			rcase, sched := pc, "the case's own delays"
+			if i%4 >= 2 {
+				rcase, sched = late, "panicking executions delayed so that they finish last"
+			}
+			o, _, _ := runOne(rcase, "invoke", host)
+			if w, sig := pc.oracle(&o); w != "" {
+				o.Mode = "invoke(repeated)"
+				obs = append(obs, o)
+				which := ""
+				if pc != c {
+					which = " of the same ids on the calls in reverse order (the peer call of the shared-node runs)"
+				}
+				res.Oracle, res.Sig = fmt.Sprintf("repetition %d%s, schedule: %s: %s", i, which, sched, w), sig
+			}
+		}
+	}
 	for _, p := range runPlan {
+		if res.Oracle != "" {
+			break
+		}
+		at(p[0] + "/" + p[1])
 		o, peer, pc := runOne(c, p[0], p[1])
 		obs = append(obs, o)
 		if t := o.coq(); t != "" {
@@ -1502,9 +1599,15 @@ func (engine) Run(ci any) lib.Result {
 				res.Oracle, res.Sig = pc.oracle(peer)
 			}
 		}
+		if res.Oracle != "" {
+			// the verdict on this case is in; the remaining runs are not needed (and after a lost
+			// failure the streamed form may take the process down)
+			sendable = false
+			break
+		}
 	}
 	res.Obs = obs
-	if sendable {
+	if sendable && res.Oracle == "" {
 		res.CoqTerm = cur.wrap(c.coq(terms))
 	}
 	// distribution
@@ -1627,16 +1730,27 @@ func (engine) Shrink(ci any, stillFails func(any) bool) any {
 
 // crash marker: if the implementation kills the process (an unrecovered panic on a goroutine
 // the harness cannot guard, a fatal runtime error), ./check finds fatal.json in the run
-// directory and reports the case as a violation with this replay.
-func markRunning(c any) func() {
+// directory and reports a violation whose replay is the marker's content. ./check blanks the
+// marker's "case" key, so the case is also given under "failing_case", and as a file of its own
+// that ./check C17 --replay accepts.
+func markRunning(c *Case) (at func(label string), done func()) {
 	dir := os.Getenv("VERIF_RUNDIR")
 	if dir == "" {
-		return func() {}
+		return func(string) {}, func() {}
 	}
 	p := filepath.Join(dir, "fatal.json")
-	b, _ := json.Marshal(map[string]any{"case": c, "what": "the process died while this case was running on the implementation"})
-	_ = os.WriteFile(p, b, 0o644)
-	return func() { _ = os.Remove(p) }
+	rp := filepath.Join(dir, "fatal_case_C17.json")
+	b, _ := json.Marshal(map[string]any{"case": c, "note": "the process died while this case was running on the implementation"})
+	_ = os.WriteFile(rp, b, 0o644)
+	at = func(label string) {
+		b, _ := json.Marshal(map[string]any{"case": c, "failing_case": c, "run": label,
+			"what":          "the process died while run " + label + " of this case (key failing_case) was executing on the implementation: " + js(c),
+			"replay_file":   rp,
+			"how_to_replay": "./check C17 --replay " + rp})
+		_ = os.WriteFile(p, b, 0o644)
+	}
+	at("setup")
+	return at, func() { _ = os.Remove(p); _ = os.Remove(rp) }
 }
 
 func main() { lib.Main(engine{}) }
